@@ -190,6 +190,17 @@ func buildCert(sc C02Script) (*built, error) {
 		b.foreign = hex.EncodeToString(victimSKI)
 	case "derived":
 		c, err = makeCert(k, derivedSKI(k.priv.Public()), "derived")
+	case "chain":
+		// own leaf without a usable SKI, followed by the genuine certificate of another device
+		var ski []byte
+		if sc.SkiLen%2 == 1 {
+			ski = make([]byte, sc.SkiLen%20)
+		}
+		c, err = makeCert(k, ski, "chain-leaf")
+		if err == nil {
+			c.Certificate = append(c.Certificate, victim.Certificate[0])
+		}
+		b.foreign = hex.EncodeToString(victimSKI)
 	default:
 		return nil, fmt.Errorf("unknown cert kind %q", sc.CertKind)
 	}
@@ -403,6 +414,10 @@ func judgeInbound(sc C02Script) (key, msg string) {
 			accepted = true
 			mine = append(mine, s)
 		}
+		// the victim's SKI is shared between cases; it counts only together with SHIP frames of this connection
+		if b.foreign != "" && s == b.foreign && r.Frames > 0 {
+			mine = append(mine, s)
+		}
 	}
 	r.NewSkis = mine
 	shipOffered := false
@@ -565,7 +580,7 @@ const KeyForeignSKI = "C02/foreign-ski-accepted"
 const KeyUnboundSKI = "C02/unbound-ski-accepted"
 
 func genC02(t *rapid.T, dir string) C02Script {
-	kinds := []string{"none", "lib", "lib", "absent", "len", "len", "random20", "foreign", "derived", "derived"}
+	kinds := []string{"none", "lib", "lib", "absent", "len", "len", "random20", "foreign", "derived", "derived", "chain"}
 	sc := C02Script{Dir: dir, CertKind: rapid.SampledFrom(kinds).Draw(t, "certKind"),
 		SkiLen:  rapid.IntRange(0, 40).Draw(t, "skiLen"),
 		KeyKind: rapid.SampledFrom([]string{"p256", "p256", "p384", "rsa"}).Draw(t, "keyKind"), KeyIdx: rapid.IntRange(0, 3).Draw(t, "keyIdx"),
